@@ -162,15 +162,21 @@ func TestC16(t *testing.T) {
 		}
 		return
 	}
-	rapid.Check(t, func(rt *rapid.T) {
-		c := rapid.Custom(genBloomCase).Draw(rt, "case")
-		cj := vlib.JSON(c)
-		rec.Begin(cj)
-		msg, nt, classes := runBloom(c)
-		rec.End(cj, nt, classes...)
-		if msg != "" {
-			rec.Violation("bloom_false_negative", msg, cj, nil)
-			rt.Fatalf("%s", msg)
-		}
-	})
+	rapid.Check(t, propC16)
 }
+
+func propC16(rt *rapid.T) {
+	rec := vlib.For("C16", "TestC16")
+	c := rapid.Custom(genBloomCase).Draw(rt, "case")
+	cj := vlib.JSON(c)
+	rec.Begin(cj)
+	msg, nt, classes := runBloom(c)
+	rec.End(cj, nt, classes...)
+	if msg != "" {
+		rec.Violation("bloom_false_negative", msg, cj, nil)
+		rt.Fatalf("%s", msg)
+	}
+}
+
+// FuzzC16 hands the same property to Go's coverage-guided fuzzer (thorough tier only).
+func FuzzC16(f *testing.F) { f.Fuzz(rapid.MakeFuzz(propC16)) }
